@@ -316,6 +316,81 @@ func c08Census(dir string) (sites []string, err error) {
 	return sites, nil
 }
 
+// c08Intf checks the CollectionInterface view of one pointer-held collection kind.
+func c08Intf(kind string, members int) (key, detail string) {
+	var list ap.ItemCollection
+	for i := 0; i < members; i++ {
+		list = append(list, ap.IRI(fmt.Sprintf("https://example.com/members/%d", i)))
+	}
+	var x ap.Item
+	original := func() ap.ItemCollection {
+		switch v := x.(type) {
+		case *ap.ItemCollection:
+			return *v
+		case *ap.Collection:
+			return v.Items
+		case *ap.CollectionPage:
+			return v.Items
+		case *ap.OrderedCollection:
+			return v.OrderedItems
+		case *ap.OrderedCollectionPage:
+			return v.OrderedItems
+		}
+		return nil
+	}
+	switch kind {
+	case "ItemCollection":
+		l := append(ap.ItemCollection{}, list...)
+		x = &l
+	case "Collection":
+		x = &ap.Collection{ID: "https://example.com/c", Type: ap.CollectionType, Items: append(ap.ItemCollection{}, list...)}
+	case "CollectionPage":
+		x = &ap.CollectionPage{ID: "https://example.com/c", Type: ap.CollectionPageType, Items: append(ap.ItemCollection{}, list...)}
+	case "OrderedCollection":
+		x = &ap.OrderedCollection{ID: "https://example.com/c", Type: ap.OrderedCollectionType, OrderedItems: append(ap.ItemCollection{}, list...)}
+	case "OrderedCollectionPage":
+		x = &ap.OrderedCollectionPage{ID: "https://example.com/c", Type: ap.OrderedCollectionPageType, OrderedItems: append(ap.ItemCollection{}, list...)}
+	}
+	added := ap.IRI("https://example.com/members/added-through-the-view")
+	called := false
+	var err error
+	pi := evSafe(func() {
+		err = ap.OnCollectionIntf(x, func(c ap.CollectionInterface) error {
+			called = true
+			if got := c.Collection(); len(got) != members {
+				key, detail = "view OnCollectionIntf "+kind+" ptr read:members", fmt.Sprintf("the view shows %d members, the original has %d", len(got), members)
+				return nil
+			}
+			for i, m := range c.Collection() {
+				if m.GetLink() != list[i].GetLink() {
+					key, detail = "view OnCollectionIntf "+kind+" ptr read:members", fmt.Sprintf("member %d reads %q through the view, the original holds %q", i, m.GetLink(), list[i].GetLink())
+					return nil
+				}
+			}
+			if int(c.Count()) != members {
+				key, detail = "view OnCollectionIntf "+kind+" ptr read:count", fmt.Sprintf("Count() through the view = %d, the original has %d members", c.Count(), members)
+				return nil
+			}
+			return c.Append(added)
+		})
+	})
+	switch {
+	case pi != nil:
+		return "view OnCollectionIntf " + kind + " ptr panic@" + pi.Frame, pi.Value
+	case key != "":
+		return key, detail
+	case err != nil:
+		return "", "" // refused with an error: always acceptable
+	case !called:
+		return "view OnCollectionIntf " + kind + " ptr not-called", "the callback was not called and no error was returned"
+	}
+	after := original()
+	if len(after) != members+1 || after[members].GetLink() != added {
+		return "view OnCollectionIntf " + kind + " ptr write:append", fmt.Sprintf("a member appended through the view is not seen by the original: original holds %s", vocab.Dump(after))
+	}
+	return "", ""
+}
+
 func TestC08(t *testing.T) {
 	cells := c08Cells()
 	values := 20
@@ -331,7 +406,8 @@ func TestC08(t *testing.T) {
 	r.Rule("matrix: every To*/On* helper (15 types, generic To[T]) x every source struct type x {pointer, value} (exhaustive), each on 20 (300 thorough) fully populated source values with a distinct recognisable " +
 		"value in every field; run in a child process built with the runtime pointer checker (-d=checkptr) so that an abort is attributed to its cell. Oracle per cell that returns a view: reflect offsets/sizes show the " +
 		"view type lies inside the source value, every shared field (plus items<->orderedItems) reads equal, writes through a pointer view reach the original; an error return is always accepted. A go/parser census " +
-		"of unsafe.Pointer conversion sites checks that every site is exercised by a cell. non-trivial = the cell returns a view of a different type; distinct by cell")
+		"of unsafe.Pointer conversion sites checks that every site is exercised by a cell. intf: OnCollectionIntf on each of the four collection kinds and an item list held by pointer, with 0/1/3 members: " +
+		"members and Count read through the view as on the original, a member appended through the view is seen by the original. non-trivial = the cell returns a view of a different type; distinct by cell")
 	r.Note("only_enumerated_layers", true)
 	r.Note("checkptr", "test binary built with -gcflags=all=-d=checkptr")
 
@@ -368,6 +444,28 @@ func TestC08(t *testing.T) {
 	}
 	r.Cells(len(cells), len(cells))
 	r.Exhaustive("matrix", !r.Replaying())
+
+	// ---- the collection-interface view: OnCollectionIntf presents each of the four collection kinds and an item list through
+	// CollectionInterface; it reads the original's members, and a member appended through the view of a pointer is seen by the original
+	if r.WantLayer("intf", true) {
+		n := 0
+		for _, kind := range []string{"ItemCollection", "Collection", "CollectionPage", "OrderedCollection", "OrderedCollectionPage"} {
+			for _, members := range []int{0, 1, 3} {
+				cell := fmt.Sprintf("OnCollectionIntf *%s members=%d", kind, members)
+				if !r.WantCell(cell) {
+					continue
+				}
+				n++
+				r.Case(cell, true, "intf kind="+kind)
+				key, detail := c08Intf(kind, members)
+				if key != "" {
+					r.Report("intf", cell, key, detail, cell)
+				}
+			}
+		}
+		r.Cells(n, n)
+		r.Exhaustive("intf", !r.Replaying())
+	}
 
 	// census of the conversion sites: completeness of the generated domain, not a verdict
 	repo := os.Getenv("VERIF_REPO")
